@@ -69,7 +69,9 @@ def explore(ctx):
                                    doc_type=repr(t), classes=model.source[-2500:]))
     # class models with annotations yatiml cannot use: forward references, strings, tuples, sets, callables
     ODD = ["Optional[List['Node']]", "'Node'", "Tuple[int, int]", "set", "Dict[int, str]", "Optional['Node']",
-           "Callable[[int], int]", "List['Missing']", "Union['Node', int]", "frozenset", "bytes", "complex", "object"]
+           "Callable[[int], int]", "List['Missing']", "Union['Node', int]", "frozenset", "bytes", "complex", "object",
+           "list[int]", "dict[str, int]", "int | None", "Literal['a']", "Type[int]", "Set[int]", "Tuple[int, ...]",
+           "Optional[Tuple[int, int]]", "Dict[str, 'Node']", "Union[int, Set[str]]", "List[list]", "type(None)"]
     DOCS = ['{v: 1}', '{v: 1, x: [{v: 2}]}', '{v: 1, x: {v: 2}}', '{v: 1, x: [1, 2]}', '{v: 1, x: 3}',
             '{v: 1, x: null}', '{v: 1, x: {1: a}}', '{v: 1, x: !Node {v: 2}}', '{v: 1, x: a}', '[{v: 1, x: []}]']
     for i in range(ctx.budget(len(ODD), len(ODD) * 3)):
